@@ -50,3 +50,69 @@ def _to_string(ip, st, recv, args, kwargs):
 def same_p256_key(ip, st, a, b):
     """the two byte strings denote the same P-256 public key"""
     return as_value("bool", tm.Eq(p256_key(to_term(a)), p256_key(to_term(b))))
+
+
+# ------------------------------------------------------------------------------------------- version-2 (SGX) elements
+from spec.hash_ext import sha256_term       # noqa: E402
+from pyvc import verify as VF               # noqa: E402
+from pyvc.verify import OPAQUE, RAW, BOOL_, INT_, BYTES_   # noqa: E402
+
+p256_verifies = tm.FunDecl("p256.verifies_digest", [P256, BYTES, BYTES], BOOL)     # key.verify_digest(sig, digest, sigdecode_der)
+LM.EXTERNAL_VALUES["ecdsa.util.sigdecode_der"] = Opaque("sigdecode_der")
+BadSignature = LM.ext_class("ecdsa.keys.BadSignatureError", bases=[Exception_], is_exc=True)
+
+
+@LM.opaque_method("p256key", "verify_digest")
+def _verify_digest(ip, st, recv, args, kwargs):
+    sig, digest = args[0], args[1]
+    if kind_of(sig) != "bytes" or kind_of(digest) != "bytes":
+        yield st, Raise(I.make_exc(st, "Exception", "bad argument types"))
+        return
+    ok = p256_verifies(recv.attrs["key"], to_term(sig), to_term(digest))
+    # the ecdsa package returns True for a good signature and RAISES BadSignatureError (or a DER error) otherwise
+    for st1, b in ip.branch(st, as_value("bool", ok)):
+        if b:
+            yield st1, True
+        else:
+            yield st1, Raise(st1.new_obj(BadSignature, {"args": ("Signature verification failed",)}))
+
+
+# an abstract certifier of a version-2 element: get_pubkey() raises or yields its P-256 key
+CERTIFIER = OPAQUE("v2certifier", key=RAW(P256), has_key=BOOL_)
+
+
+@LM.opaque_method("v2certifier", "get_pubkey")
+def _certifier_get_pubkey(ip, st, recv, args, kwargs):
+    for st1, b in ip.branch(st, recv.attrs["has_key"]):
+        if b:
+            yield st1, Opaque("p256key", dict(key=to_term(recv.attrs["key"])))
+        else:
+            yield st1, Raise(I.make_exc(st1, "ValueError", "Error gathering public key from certificate"))
+
+
+@native
+def certifier_signed(ip, st, certifier, sig, digest):
+    """the certifier has a P-256 key and `sig` is a valid (DER) signature of `digest` under it"""
+    a = certifier.attrs
+    return as_value("bool", tm.And(to_term(a["has_key"]), p256_verifies(to_term(a["key"]), to_term(sig), to_term(digest))))
+
+
+@native
+def is_p256_point(ip, st, b):
+    return as_value("bool", p256_ok(to_term(b)))
+
+
+@native
+def p256_raw(ip, st, b):
+    """key.to_string(): the raw (x || y) encoding of the key that the byte string b denotes"""
+    k = p256_key(to_term(b))
+    out = p256_str(k, tm.Str("raw"))
+    return Sym("bytes", out)
+
+
+@native
+def is_key_of(ip, st, k, b):
+    """k is the ecdsa verifying key that the byte string b denotes"""
+    if not (isinstance(k, Opaque) and k.tag == "p256key"):
+        return False
+    return as_value("bool", tm.Eq(k.attrs["key"], p256_key(to_term(b))))
